@@ -1,5 +1,5 @@
 """C02 — BIP340 Schnorr: signatures equal the specification, verification exactly per spec."""
-from buidl import pecc, phash
+from buidl import hash as bhash, pecc, phash
 from buidl.pecc import PrivateKey, S256Point, SchnorrSignature
 
 from . import ecref
@@ -139,7 +139,108 @@ def p_tagged(calls):
     return None
 
 
-PROPS = {"sign": p_sign, "verify_ref": p_verify_ref, "tagged": p_tagged}
+# the named wrappers of tagged_hash and the tag each must use (BIP340 / BIP341)
+WRAPPERS = [("hash_aux", b"BIP0340/aux"), ("hash_nonce", b"BIP0340/nonce"), ("hash_challenge", b"BIP0340/challenge"),
+            ("hash_taptweak", b"TapTweak"), ("hash_tapleaf", b"TapLeaf"), ("hash_tapbranch", b"TapBranch"),
+            ("hash_tapsighash", b"TapSighash")]
+
+
+def p_tagged_wrappers(calls):
+    """State kept across calls (module level).  A history of calls [w, msg] — w < len(WRAPPERS) selects a named
+    wrapper (hash_aux, hash_nonce, ...), otherwise [tag, msg] calls tagged_hash directly — made WITHOUT clearing
+    TAG_HASH_CACHE (whatever earlier cases left there stays): every answer is sha256(sha256(tag)*2 || msg) of
+    the tag and message of THAT call."""
+    for step, (w, m) in enumerate(calls):
+        if isinstance(w, int):
+            name, tag = WRAPPERS[w]
+            got = getattr(bhash, name)(m)
+        else:
+            name, tag = "tagged_hash", w
+            got = bhash.tagged_hash(w, m)
+        if got != ecref.tagged(tag, m):
+            return f"call {step}: {name}({tag!r}, {m.hex()}) is not the tagged hash of this tag and message"
+    return None
+
+
+def _ref_k0(d, m, a):
+    pt = ecref.mul(d, ecref.G)
+    de = d if pt[1] % 2 == 0 else N - d
+    t = bytes(x ^ y for x, y in zip(de.to_bytes(32, "big"), ecref.tagged(b"BIP0340/aux", a)))
+    return int.from_bytes(ecref.tagged(b"BIP0340/nonce", t + pt[0].to_bytes(32, "big") + m), "big") % N
+
+
+def p_key_reuse(d, msgs, auxs, order):
+    """State kept across calls.  ONE PrivateKey, ONE full public point, ONE x-only-parsed point and ONE
+    SchnorrSignature object live through a call history: bip340_k over every (message, aux) combination forwards
+    and backwards, sign_schnorr in the given order of [message index, aux index] pairs (aux index -1 = None,
+    which must mean 32 zero bytes; repeats included), a caller editing a returned signature, every
+    (message, signature) combination verified on both point objects, SchnorrSignature.r / .s edited in place,
+    and a SchnorrSignature.parse history.  Every result must equal BIP340 for the CURRENT arguments."""
+    key = PrivateKey(d)
+    pkx = key.point.xonly()
+    if pkx != ecref.mul(d, ecref.G)[0].to_bytes(32, "big"):
+        return "x-only public key differs from the reference"
+
+    def aux_of(j):
+        return None if j < 0 else auxs[j]
+
+    def aux_ref(j):
+        return bytes(32) if j < 0 else auxs[j]
+
+    combos = [(i, j) for i in range(len(msgs)) for j in range(-1, len(auxs))]
+    for (i, j) in combos + combos[::-1]:
+        got, want = key.bip340_k(msgs[i], aux_of(j)), _ref_k0(d, msgs[i], aux_ref(j))
+        if got != want:
+            return f"bip340_k(msg[{i}], aux[{j}]) on a reused key is {got}, BIP340 nonce is {want}"
+    made = []
+    for step, (i, j) in enumerate(order):
+        so = key.sign_schnorr(msgs[i], aux_of(j))
+        want = ecref.bip340_sign(d, msgs[i], aux_ref(j))
+        if so.serialize() != want:
+            return (f"call {step}: sign_schnorr(msg[{i}], aux[{j}]) on a reused key gives {so.serialize().hex()}, "
+                    f"BIP340 gives {want.hex()}")
+        made.append((i, j, so, want))
+    for (i, j, so, want) in made[:2]:
+        so.s = (so.s + 1) % N
+        so.r = pecc.G
+        if key.sign_schnorr(msgs[i], aux_of(j)).serialize() != want:
+            return "sign_schnorr changed after the caller edited the SchnorrSignature returned earlier"
+    # verification: every (message, signature) combination, on the key's own point object and on ONE parsed one
+    sigs = [ecref.bip340_sign(d, m, aux_ref(0)) for m in msgs]
+    pts = [("key.point", key.point), ("parse(xonly)", S256Point.parse(pkx))]
+    pairs = [(i, j) for i in range(len(msgs)) for j in range(len(msgs))]
+    pairs = pairs[:1] + pairs[::-1] + pairs[:1]
+    for (i, j) in pairs:
+        want = ecref.bip340_verify(pkx, msgs[i], sigs[j])
+        for nm, pt in pts:
+            got = pt.verify_schnorr(msgs[i], SchnorrSignature.parse(sigs[j]))
+            if got is not want:
+                return f"verify_schnorr(msg[{i}], signature over msg[{j}]) on the reused {nm} answers {got!r}, BIP340 {want}"
+    # ONE SchnorrSignature object edited in place
+    a, b = sigs[0], sigs[-1]
+    so = SchnorrSignature.parse(a)
+    rb = SchnorrSignature.parse(b)
+    if so.serialize() != a or key.point.verify_schnorr(msgs[0], so) is not True:
+        return "SchnorrSignature object: serialize/verify wrong before any edit"
+    cur = a
+    for fld, val, enc in (("s", rb.s, a[:32] + b[32:]), ("r", rb.r, b), ("s", (rb.s + 1) % N,
+                          b[:32] + ((rb.s + 1) % N).to_bytes(32, "big")), ("s", rb.s, b), ("r", S256Point.parse(a[:32]), a[:32] + b[32:])):
+        setattr(so, fld, val)
+        cur = enc
+        if so.serialize() != cur:
+            return f"SchnorrSignature.serialize() after setting .{fld} in place is not the encoding of the current fields"
+        i = len(msgs) - 1 if cur == b else 0
+        got, want = key.point.verify_schnorr(msgs[i], so), ecref.bip340_verify(pkx, msgs[i], cur)
+        if got is not want:
+            return f"verify_schnorr with a signature object edited in place (.{fld}) answers {got!r}, BIP340 {want}"
+    for e in sigs + sigs[::-1]:
+        if SchnorrSignature.parse(e).serialize() != e:
+            return f"SchnorrSignature.parse({e.hex()}) in a call history re-serialises differently"
+    return None
+
+
+PROPS = {"sign": p_sign, "verify_ref": p_verify_ref, "tagged": p_tagged, "tagged_wrappers": p_tagged_wrappers,
+         "key_reuse": p_key_reuse}
 
 # ---------------------------------------------------------------- official BIP340 test vectors
 # (index, secret, pubkey, aux, msg, sig, result) — from bip-0340/test-vectors.csv, 32-byte messages only
@@ -361,3 +462,33 @@ def generate(ctx):
         yield ("prop", "verify_ref", [pk, m, sig])
         yield ("corr", "schnorr_parse", [sig])
         ctx.label("verify/random")
+
+    # ---- state kept across calls: tag cache under look-alike tags, wrappers, no clearing between histories
+    near = [b"BIP0340/aux", b"BIP0340/auy", b"BIP0340/nonce", b"BIP0340/nonc", b"TapLeaf", b"TapLeag", b"TapTweak",
+            b"TapBranc", b"TapBranch", b"tapleaf", b"TapLeaf\x00", b"", b"\x00"]
+    for _ in range(ctx.n(40, 800)):
+        calls = []
+        shared = ctx.rbytes(r.randrange(0, 70))
+        for _ in range(r.randrange(2, 14)):
+            c = r.random()
+            w = r.randrange(len(WRAPPERS)) if c < 0.45 else r.choice(near) if c < 0.9 else ctx.rbytes(r.randrange(0, 12))
+            c = r.random()
+            m = shared if c < 0.4 else shared[:-1] + bytes([shared[-1] ^ 1]) if c < 0.6 and shared else \
+                ctx.rbytes(len(shared)) if c < 0.8 else ctx.rbytes(r.randrange(0, 70))
+            calls.append([w, m])
+        ctx.label("tagged/wrappers+look-alike-tags")
+        yield ("prop", "tagged_wrappers", [calls])
+
+    # ---- state kept across calls: one key / point / signature object through a call history
+    for i in range(ctx.n(3, 30)):
+        d = SECRETS[i % len(SECRETS)] if i % 3 == 2 else rscalar(r)
+        m0 = ctx.rbytes(32)
+        msgs = [m0, m0[:31] + bytes([m0[31] ^ 1]) if i % 2 else ctx.rbytes(32)]
+        a0 = ctx.rbytes(32)
+        auxs = [a0, bytes(32) if i % 3 == 0 else ctx.rbytes(32)]
+        order = [[0, 0], [0, 1], [1, 0], [0, 0], [r.randrange(2), -1]]
+        if i % 2:
+            order = order[::-1]
+        q = ecref.mul(d, ecref.G)
+        ctx.label("reuse/one-key-many-messages/" + ("P-odd" if q[1] % 2 else "P-even"))
+        yield ("prop", "key_reuse", [d, msgs, auxs, order])
